@@ -11,7 +11,7 @@ RULE = ('breadth-first exploration of ALL command sequences up to depth D (D=4 q
         'state, every transition of every distinct state is executed on a state machine rebuilt by replaying the path; plus seeded random sequences '
         '(50-5000 commands, 7 topic names, arbitrary u64 counts, random and mutated byte strings). Oracle per transition: no panic (catch_unwind), state still '
         'readable, segments numbered 1..current with one leader each, open-segment leader == topic leader, sealed = 1..current-1, sealed counts/leaders '
-        'unchanged w.r.t. the state before, cumulative offset == sum of sealed counts (u128), rejected commands leave the state unchanged. '
+        'unchanged w.r.t. the state before, the leader recorded for ANY segment (also the open one) unchanged w.r.t. the state before, cumulative offset == sum of sealed counts (u128), rejected commands leave the state unchanged. '
         'non-trivial = transition from a reachable state; distinct = distinct canonical states')
 
 def run(tier, seed, budget, prop='C18'):
